@@ -71,6 +71,29 @@ fn gen_case(rng: &mut Rng, small: bool) -> Case {
                 }
             }
         }
+        2 if rng.bool() => {
+            // text runs longer than the decoder's buffer in a legacy encoding under text handlers: how a text node is cut into
+            // chunks must not depend on what other rewriters of the process decoded before
+            let legacy = *rng.pick(&encs);
+            cfg.encoding = legacy.name().to_string();
+            let good = gen::mappable_chars(legacy);
+            let mut v: Vec<u8> = vec![];
+            for _ in 0..rng.range(1, 3) {
+                v.extend(b"<p>");
+                let mut t = String::new();
+                for _ in 0..rng.range(600, if small { 2500 } else { 6000 }) {
+                    if !good.is_empty() && rng.chance(1, 3) {
+                        t.push(*rng.pick(&good));
+                    } else {
+                        t.push(*rng.pick(&['a', ' ', 'z', '.']));
+                    }
+                }
+                v.extend(legacy.encode(&t).0.iter());
+                v.extend(b"</p>");
+            }
+            input = v;
+            cfg.doc.push(engine::DocH { text: true, ..Default::default() });
+        }
         _ => {}
     }
     if rng.bool() {
@@ -376,7 +399,7 @@ impl Prop for C18 {
         "C18"
     }
     fn rule(&self) -> String {
-        "groups of 2-6 generated rewrites (send handler types; tag soup, structured documents with generated selectors, and sibling runs over 6-40 distinct non-standard element names under per-type counting selectors; observers and mutating scripts; injected failures and memory limits; bail-out handlers): each is run twice sequentially (must be identical) and followed on the same thread by fixed probe rewrites that must equal their run on a fresh thread (nothing is left behind, also after a failure inside a handler on a meta charset element), then all of them concurrently on their own threads released by a barrier with random yields (each must equal its sequential run), then as a send::HtmlRewriter moved to a freshly spawned thread for every write() and for end(); concurrent Selector parsing on 4 threads; case-twin selectors (differing only in the ASCII case of a class / id / attribute value) run after each other and concurrently must stay distinct; C API last-error ping-pong choreographed with barriers; the same workload runs under ThreadSanitizer (any report fails the run) and, small, under Miri's data-race detector; non-trivial: >= 2 threads were inside lol-html at the same time (in-flight counter); distinct = hash(group)".into()
+        "groups of 2-6 generated rewrites (send handler types; tag soup, structured documents with generated selectors, sibling runs over 6-40 distinct non-standard element names under per-type counting selectors, and 0.6-6 KiB text runs in legacy encodings under text handlers; observers and mutating scripts; injected failures and memory limits; bail-out handlers): each is run twice sequentially (must be identical) and followed on the same thread by fixed probe rewrites that must equal their run on a fresh thread (nothing is left behind, also after a failure inside a handler on a meta charset element), then all of them concurrently on their own threads released by a barrier with random yields (each must equal its sequential run), then as a send::HtmlRewriter moved to a freshly spawned thread for every write() and for end(); concurrent Selector parsing on 4 threads; case-twin selectors (differing only in the ASCII case of a class / id / attribute value) run after each other and concurrently must stay distinct; C API last-error ping-pong choreographed with barriers; the same workload runs under ThreadSanitizer (any report fails the run) and, small, under Miri's data-race detector; non-trivial: >= 2 threads were inside lol-html at the same time (in-flight counter); distinct = hash(group)".into()
     }
     fn assumptions(&self) -> Vec<String> {
         vec!["a future global guarded by a lock that does not change results is invisible to this family".into()]
